@@ -141,6 +141,8 @@ func genBitmapField(r *Rng, o SpecOpts, composite bool) *impl.TField {
 var tagKeySets = [][]string{
 	{"1", "2", "3", "4", "5"}, {"01", "02", "03", "11", "12"}, {"A1", "B2", "C3", "ZZ"}, {"9F02", "9A", "5F2A", "82"},
 	{"001", "002", "010"}, {"a", "b", "c"}, {"é", "ü"}, {"1", "10", "2"},
+	// characters that a JSON writer has to escape when the tag becomes an object key
+	{"\\\\", "\"Q", "a\\b", "<&>"},
 }
 
 func genComposite(r *Rng, o SpecOpts, depth int) *impl.TField {
